@@ -2,6 +2,32 @@ pub mod assembler;
 pub mod bit_value;
 pub mod parser;
 
+/// Subtraction of a data field's bias that reports values below the bias, and values
+/// whose difference does not fit the type, as `None` instead of overflowing.
+pub trait BiasSub: Sized {
+    fn bias_sub(self, bias: Self) -> Option<Self>;
+}
+macro_rules! impl_bias_sub {
+    (int: $($t:ty),*) => {$(
+        impl BiasSub for $t {
+            #[inline]
+            fn bias_sub(self, bias: Self) -> Option<Self> {
+                if self >= bias { self.checked_sub(bias) } else { None }
+            }
+        }
+    )*};
+    (float: $($t:ty),*) => {$(
+        impl BiasSub for $t {
+            #[inline]
+            fn bias_sub(self, bias: Self) -> Option<Self> {
+                if self >= bias { Some(self - bias) } else { None }
+            }
+        }
+    )*};
+}
+impl_bias_sub!(int: u8, u16, u32, u64, usize, i8, i16, i32, i64);
+impl_bias_sub!(float: f32, f64);
+
 macro_rules! df {
     (
         id: $id:ident,
@@ -45,11 +71,10 @@ macro_rules! df {
                 #[allow(unused_mut)]
                 let mut value = *value;
                 $(
-                    if value >= $bias {
-                        value -= $bias;
-                    } else {
-                        return Err(RtcmError::OutOfRange);
-                    }
+                    value = match $crate::df::BiasSub::bias_sub(value, $bias) {
+                        Some(value) => value,
+                        None => return Err(RtcmError::OutOfRange),
+                    };
                 )?
                 $(
                     value /= $res;
